@@ -140,6 +140,7 @@ fn install(ctl: Arc<Ctl>, tid: usize) {
 }
 
 pub type Program = Box<dyn FnOnce() -> bool + Send>;
+const MAX_SPURIOUS: usize = 2;
 
 /// run the programs under one schedule script; returns (grants as (tid, spurious), events, results, choice points)
 fn run_schedule(programs: Vec<Program>, script: &[usize]) -> (Vec<(usize, bool)>, Vec<(usize, AtomicEvent)>, Vec<bool>, Vec<(usize, usize)>) {
@@ -177,7 +178,9 @@ fn run_schedule(programs: Vec<Program>, script: &[usize]) -> (Vec<(usize, bool)>
         let tid = enabled[pick];
         // a weak compare-exchange may fail spuriously: one more binary choice
         let mut spur = false;
-        if g.at_yield[tid] == Some(AtomicOp::CompareExchangeWeak) {
+        // at most MAX_SPURIOUS spurious failures per schedule: a retry loop around a weak
+        // compare-exchange then terminates under every explored schedule
+        if g.at_yield[tid] == Some(AtomicOp::CompareExchangeWeak) && grants.iter().filter(|g: &&(usize, bool)| g.1).count() < MAX_SPURIOUS {
             let k2 = choices.len();
             let p2 = if k2 < script.len() { script[k2].min(1) } else { 0 };
             choices.push((2, p2));
